@@ -41,14 +41,14 @@ theorem key_eq_of_beq (k k' : Str × Str) (h : (k.1 == k'.1 && k.2 == k'.2) = tr
 theorem assign_spec (reg : Registry) (next : Nat) (k : Str × Str) (ns : Option Str) (ps : List (Str × PVal))
     (h : RegOK reg next) :
     let r := assign reg next k ns ps
-    RegOK r.2.2.2.1 r.2.2.2.2 ∧
+    RegOK r.2.2.2.1 r.2.2.2.2.1 ∧
     (∃ v, regGet k r.2.2.2.1 = some v ∧ v.1 = r.1) ∧
     (∀ k' v, regGet k' reg = some v → regGet k' r.2.2.2.1 = some v) ∧
-    next ≤ r.2.2.2.2 := by
+    next ≤ r.2.2.2.2.1 := by
   unfold assign
   cases hg : regGet k reg with
   | some v =>
-    obtain ⟨o, ons, ops⟩ := v
+    obtain ⟨o, ons, ops, ocid⟩ := v
     exact ⟨h, ⟨_, hg, rfl⟩, fun _ _ hx => hx, Nat.le_refl _⟩
   | none =>
     refine ⟨⟨?_, ?_⟩, ?_, ?_, Nat.le_succ _⟩
@@ -92,7 +92,7 @@ theorem assign_spec (reg : Registry) (next : Nat) (k : Str × Str) (ns : Option 
               rw [← key_eq_of_beq _ _ hb1, ← key_eq_of_beq _ _ hb2]
             · cases h2
         · cases h1
-    · refine ⟨(next, ns, ps), ?_, rfl⟩
+    · refine ⟨(next, ns, ps, []), ?_, rfl⟩
       rw [regGet_append_miss, hg]
       simp
     · intro k' v hv
@@ -109,8 +109,8 @@ theorem shared_iff_same_loc (reg : Registry) (next : Nat) (h : RegOK reg next)
 /-- the invariant holds after any sequence of assignments starting from the empty registry -/
 theorem regOK_after (ks : List ((Str × Str) × Option Str × List (Str × PVal))) :
     ∀ (reg : Registry) (next : Nat), RegOK reg next →
-      RegOK (ks.foldl (fun (s : Registry × Nat) k => let r := assign s.1 s.2 k.1 k.2.1 k.2.2; (r.2.2.2.1, r.2.2.2.2)) (reg, next)).1
-            (ks.foldl (fun (s : Registry × Nat) k => let r := assign s.1 s.2 k.1 k.2.1 k.2.2; (r.2.2.2.1, r.2.2.2.2)) (reg, next)).2 := by
+      RegOK (ks.foldl (fun (s : Registry × Nat) k => let r := assign s.1 s.2 k.1 k.2.1 k.2.2; (r.2.2.2.1, r.2.2.2.2.1)) (reg, next)).1
+            (ks.foldl (fun (s : Registry × Nat) k => let r := assign s.1 s.2 k.1 k.2.1 k.2.2; (r.2.2.2.1, r.2.2.2.2.1)) (reg, next)).2 := by
   induction ks with
   | nil => intro reg next h; exact h
   | cons k ks ih =>
